@@ -162,11 +162,14 @@ def closed_loop(port, r_seed, nclients, rounds, stop_evt=None, per_timeout=4.0, 
         s = socket.socket(socket.AF_INET, socket.SOCK_DGRAM); s.settimeout(per_timeout)
         s.connect(("127.0.0.1", port))
         mine = []
+        nonces = []
         for k in range(rounds):
             if stop_evt is not None and stop_evt.is_set():
                 break
             proto = "Google" if (ci + k) % 2 else "RfcDraft13"
-            req = mkreq(r, proto)
+            # (same RNG consumption as mkreq)
+            nonce = bytes(r.getrandbits(8) for _ in range(64 if proto == "Google" else 32))
+            req = rt.mk_classic(nonce) if proto == "Google" else rt.mk_ietf(nonce, 1024)
             reps = []
             if bar is not None:
                 try:
@@ -180,7 +183,25 @@ def closed_loop(port, r_seed, nclients, rounds, stop_evt=None, per_timeout=4.0, 
                         bar2.wait(timeout=15)
                     except threading.BrokenBarrierError:
                         pass
-                reps.append(s.recv(4096))
+                # a reply carries the nonce of the request it answers: a datagram that answers an EARLIER
+                # request of this client (it arrived after that round's timeout) is credited to that round,
+                # not mistaken for the answer to the current request
+                deadline = time.time() + per_timeout
+                while True:
+                    remaining = deadline - time.time()
+                    if remaining <= 0:
+                        break
+                    s.settimeout(remaining)
+                    data = s.recv(4096)
+                    if nonce in data:
+                        reps.append(data)
+                        break
+                    late = [j for j in range(len(nonces) - 1, -1, -1) if nonces[j] in data]
+                    if late:
+                        mine[late[0]][2].append(data)
+                        continue
+                    reps.append(data)       # answers nothing this client sent: left to the verifier
+                    break
             except (socket.timeout, OSError):
                 pass
             if bar3 is not None:
@@ -189,12 +210,17 @@ def closed_loop(port, r_seed, nclients, rounds, stop_evt=None, per_timeout=4.0, 
                 except threading.BrokenBarrierError:
                     pass
             mine.append((proto, req, reps, time.time()))
+            nonces.append(nonce)
         # anything extra still in flight?
         s.settimeout(0.15)
         try:
             while True:
                 extra = s.recv(4096)
-                mine.append(("EXTRA", b"", [extra], time.time()))
+                late = [j for j in range(len(nonces) - 1, -1, -1) if nonces[j] in extra]
+                if late:
+                    mine[late[0]][2].append(extra)
+                else:
+                    mine.append(("EXTRA", b"", [extra], time.time()))
         except (socket.timeout, OSError):
             pass
         s.close()
